@@ -862,6 +862,54 @@ def run_foreign_initiator(variant):
     return w, delivered, init.state.name
 
 
+def run_restarted_initiator(lost):
+    """An honest initiator of another make starts over with the SAME initiator SPI but a fresh nonce and key pair (its first
+    request, or the response to it, got lost and it does not retransmit but rebuilds the request).  The second request is a
+    request of its own: the exchange it starts must complete, both ends authenticated over what was really exchanged."""
+    import ikesa
+    import configuration
+    from ipaddress import ip_address
+    confs = S.base_confs()
+    w = S.new_world(confs)
+    w.sent_log = []
+    f_ep = Endpoint('F', [A_ADDR])
+    f_ep.world = w
+
+    def as_f(fn):
+        CTX.world, CTX.ep = w, f_ep
+        try:
+            return fn()
+        finally:
+            CTX.world, CTX.ep = None, None
+    conf = as_f(lambda: configuration.Configuration([ip_address(A_ADDR)], confs['A']))
+    ikeconf = conf.get_ike_configuration(ip_address(A_ADDR), ip_address(B_ADDR))
+    entry = ikeconf.protect[0]
+    first = as_f(lambda: ikesa.IkeSa(True, b'\0' * 8, ikeconf, ip_address(A_ADDR), ip_address(B_ADDR)))
+    msg1 = bytes(as_f(lambda: first.process_acquire(entry.my_ts, entry.peer_ts, entry.index)))
+    if lost == 'response':
+        w.step(('inject', 'B', msg1, A_ADDR))
+        w.net[:] = []
+    init = as_f(lambda: ikesa.IkeSa(True, b'\0' * 8, ikeconf, ip_address(A_ADDR), ip_address(B_ADDR)))
+    init.my_spi = first.my_spi
+    msg1b = bytes(as_f(lambda: init.process_acquire(entry.my_ts, entry.peer_ts, entry.index)))
+    if msg1b[0:8] != msg1[0:8] or msg1b == msg1:
+        raise HarnessError('could not build a second, different request with the same initiator SPI')
+    w.step(('inject', 'B', msg1b, A_ADDR))
+    if not w.net:
+        return w, 'no-answer'
+    msg2 = w.net[0]
+    w.net[:] = []
+    as_f(lambda: init.process_message(msg2.data))
+    if init.state != ikesa.IkeSa.State.AUTH_REQ_SENT:
+        return w, 'initiator-stopped:%s' % init.state.name
+    w.step(('inject', 'B', bytes(as_f(lambda: init.request.to_bytes())), A_ADDR))
+    answer = w.net[0].data if w.net else None
+    w.net[:] = []
+    if answer is not None:
+        as_f(lambda: init.process_message(answer))
+    return w, init.state.name
+
+
 TENANT_VARIANTS = [(order, second) for order in ('one-then-two', 'two-then-one')
                    for second in ('own-credentials', 'credentials-of-the-other-connection')]
 
@@ -1081,6 +1129,18 @@ def work(case):
                             'of the connection of %s, and B established the IKE_SA (SAs in its kernel for that address: %d)' % (
                                 addr2, addr1, len(sas[addr2]))))
             return res, (bool(on[addr1]), bool(on[addr2])), (True, True), world_digest(w)
+        elif case[1].startswith('restarted-initiator:'):
+            w, end = run_restarted_initiator(case[1].split(':')[1])
+            b = w.endpoints['B']
+            res = []
+            est_b = bool(established_sas(b))
+            if not b.alive:
+                res.append(('daemon-died', 'B died: %r' % (b.dead_reason[:2],)))
+            elif not est_b or end != 'ESTABLISHED' or not b.kernel.sad:
+                res.append(('honest-handshake-fails:initiator-started-over-with-the-same-spi', 'an initiator whose first %s was lost '
+                            'builds a new IKE_SA_INIT request (same SPI, fresh nonce and key pair): it ends %s, responder '
+                            'established: %s, SAs in its kernel: %d' % (case[1].split(':')[1], end, est_b, len(b.kernel.sad))))
+            return res, (end == 'ESTABLISHED', est_b), (True, b.alive), world_digest(w)
         elif case[1].startswith('foreign-initiator:'):
             variant = case[1].split(':')[1]
             w, delivered, end = run_foreign_initiator(variant)
@@ -1157,6 +1217,7 @@ def main():
     cases += [('mitm', 'impostor-initiator|%s|%s' % (c, b'replay-recorded-auth'.hex())) for c in ('psk', 'rsa')]
     cases += [('mitm', 'foreign-initiator:%s' % v) for v in FOREIGN_INIT_VARIANTS]
     cases += [('mitm', 'tenants:%s:%s' % v) for v in TENANT_VARIANTS]
+    cases += [('mitm', 'restarted-initiator:%s' % v) for v in ('request', 'response')]
     outcomes = collections.Counter()
     n_est = 0
     results = ck.pmap(work, cases)
